@@ -1635,13 +1635,18 @@ def run(rep: Report, ctx: Any) -> str:
     rep.rule("R13.4", "defaults are re-validated on the other routes: on every path of _property_from_ref that reaches the evolve() "
                       "with a wrapper schema the default is the referenced class's tested conversion of parent.default; "
                       "_merge_common_attributes converts the override with the merged class on every path, unions try members")
-    rep.rule("R13.5", "to_string returns default.python_code on every path on which a default exists")
+    rep.rule("R13.5", "to_string returns default.python_code on every path on which a default exists (every template that prints a "
+                      "declaration through to_string() - the model class and the endpoint signature - has a hole that was followed into it; "
+                      "that the names the printed code uses are imported where it is printed is import closure: C01)")
     rep.rule("R13.7", "the declared default reaches the builder: wherever property_from_data or a builder hands the property on to (another) "
                       "builder and returns what that builds, the declared default is handed on with it - the builder's `default` argument "
                       "is the declared default itself, its `data` argument the schema itself or a copy that keeps its default")
     rep.rule("R13.6", "allOf: when two members declare the same property the later declaration's default wins: the incoming property "
                       "reaches every _merge_common_attributes call as the last override (roles followed through the calls of the merge "
-                      "module), overrides are applied in argument order and the override's converted default is preferred")
+                      "module); whatever runs over the overrides (a loop, a comprehension, a left fold `reduce(step, overrides, base)`, in "
+                      "the function or a helper walked in place) runs over the parameter itself or a derivation that keeps all its elements "
+                      "in their order; wherever the merged property gets its default the accumulated default is only the last alternative "
+                      "after the override's converted default, and is taken alone only on paths where the override's default was found absent")
 
     rep.rule("R13.10", "a kind whose convert_value asks the properties held in one of its own fields (a union its members) asks them as they "
                        "are declared: the sequence whose elements' convert_value is called with the value is that field itself or a "
